@@ -39,6 +39,7 @@ type response struct {
 type responseRouter struct {
 	c         chan<- response
 	streaming bool
+	method    string // the method of the request; a response must name the same method
 }
 
 type channel struct {
@@ -142,7 +143,7 @@ func (c *channel) routeResponse(msgID uint64, resp response) {
 func (c *channel) enqueue(req request, responseChan chan<- response, streaming bool) {
 	if responseChan != nil {
 		c.responseMut.Lock()
-		c.responseRouters[req.msg.Metadata.MessageID] = responseRouter{responseChan, streaming}
+		c.responseRouters[req.msg.Metadata.MessageID] = responseRouter{responseChan, streaming, req.msg.Metadata.Method}
 		c.responseMut.Unlock()
 	}
 	// either enqueue the request on the sendQ or respond
@@ -185,6 +186,15 @@ func (c *channel) failQueued() {
 			return
 		}
 	}
+}
+
+// expectsMethod reports whether the pending call with the given message ID was made
+// for the given method (or whether there is no such call anymore).
+func (c *channel) expectsMethod(msgID uint64, method string) bool {
+	c.responseMut.Lock()
+	defer c.responseMut.Unlock()
+	router, ok := c.responseRouters[msgID]
+	return !ok || router.method == method
 }
 
 func (c *channel) deleteRouter(msgID uint64) {
@@ -298,6 +308,12 @@ func (c *channel) receiver() {
 		} else {
 			c.streamMut.RUnlock()
 			err := status.FromProto(resp.Metadata.GetStatus()).Err()
+			if err == nil && !c.expectsMethod(resp.Metadata.MessageID, resp.Metadata.Method) {
+				// The response was decoded as the output type of the method it names; if that is not
+				// the method of the request, the caller's type assertion on the reply would panic.
+				err = status.Errorf(codes.Internal, "response names method %q, which is not the method of the request", resp.Metadata.Method)
+				resp.Message = nil
+			}
 			c.routeResponse(resp.Metadata.MessageID, response{nid: c.node.ID(), msg: resp.Message, err: err})
 		}
 
